@@ -546,8 +546,35 @@ def render(rows, readings, namespace="Typedpy.Generated"):
     return "\n".join(lines)
 
 
+def probe_all_isolated():
+    """run the witness probe in a forked child: the probe pokes returned objects on purpose, and when the code
+    under test shares process-wide state (a class-level schema dict, say) those pokes would otherwise saturate
+    that state in the checking process and hide the very defect from the cases that follow"""
+    import json
+    r, w = os.pipe()
+    pid = os.fork()
+    if pid == 0:
+        code = 1
+        try:
+            os.close(r)
+            rows = [[op, kind, cat, {k: v for k, v in row.items() if not k.startswith("_")}]
+                    for op, kind, cat, row in probe_all()]
+            with os.fdopen(w, "w") as f:
+                json.dump(rows, f)
+            code = 0
+        finally:
+            os._exit(code)
+    os.close(w)
+    with os.fdopen(r) as f:
+        data = f.read()
+    _, status = os.waitpid(pid, 0)
+    if status != 0 or not data:
+        raise RuntimeError("alias witness probe failed in the child process")
+    return [(op, kind, cat, row) for op, kind, cat, row in json.loads(data)]
+
+
 def generate():
-    rows = probe_all()
+    rows = probe_all_isolated()
     readings = ast_readings()
     text = render(rows, readings)
     changed = write_if_changed("Aliasing.lean", text)
@@ -555,7 +582,7 @@ def generate():
 
 
 def update_pinned():
-    rows = probe_all()
+    rows = probe_all_isolated()
     readings = ast_readings()
     path = os.path.join(os.path.dirname(os.path.dirname(os.path.abspath(__file__))), "lean", "TypedpyModel", "Pinned",
                         "Aliasing.lean")
